@@ -532,3 +532,23 @@ def check_limit_enforced(ctx, key, adt, field, scope, F=None, accessor=None):
         ctx.sample({"rule": "T7 limit enforced", "field": field, "fn": b.name, "guard_block": sb, "line": b.line(sb)})
         return ctx.ob(f"{key}|{field}", True, f"{field} feeds a rejecting branch at bb{sb} of {b.name}", b.loc(sb))
     return ctx.ob(f"{key}|{field}", False, f"{field} is read by {readers[:3]} but no branch depending on it has a rejecting arm", F.fns[readers[0]].loc())
+
+
+def check_each_try_dominates(ctx, key, body, pattern, targets, what, min_calls=1):
+    """every `callee(..)?` matching pattern is individually necessary: with only *its* success edge removed no target is reachable"""
+    tg = body.try_guards(pattern)
+    by_call = {}
+    for sb, ps, fs, cbb in tg:
+        by_call.setdefault(cbb, []).append((sb, ps))
+    if len(by_call) < min_calls:
+        return ctx.ob(key, False, f"{what}: expected >= {min_calls} checked call(s) matching {pattern} in {body.name}, found {len(by_call)}", body.loc())
+    if not targets:
+        return ctx.ob(key, False, f"{what}: no target site in {body.name}", body.loc())
+    ok_all = True
+    for cbb, lst in sorted(by_call.items()):
+        edges = [(sb, p) for sb, ps in lst for p in ps]
+        ok, wit = body.unreachable_without(targets, edges)
+        ctx.ob(f"{key}|call@{sorted(by_call).index(cbb)}", ok,
+               f"{what}: the check at line {body.line(cbb)} " + ("dominates the write" if ok else f"is BYPASSED: {body.fmt_path(wit)}"), body.loc(cbb))
+        ok_all = ok_all and ok
+    return ok_all
